@@ -377,13 +377,20 @@ theorem reachableS_reachable {s : St} (h : LTS.Reachable (sysS g pol) s) : LTS.R
   | init => exact LTS.Reachable.init
   | step i _ hs ih => exact LTS.Reachable.step i ih (stepS_sub hs)
 
+theorem quiet_ok2_reachable {s : St} (hw : WF g) (h : LTS.Reachable (sys g) s) : Quiet g s ∧ TraceOk2 g s.tr := by
+  induction h with
+  | init => exact ⟨quiet_init g, traceOk2_nil g⟩
+  | step i hprev hstep ih => exact quiet_and_ok2_step hw (inv_reachable hw hprev) ih.1 ih.2 i hstep
+
 /-- every reachable state of the model satisfies `Quiet` -/
-theorem quiet_reachable {s : St} (hw : WF g) (h : LTS.Reachable (sys g) s) : Quiet g s := by
-  have : Quiet g s ∧ TraceOk2 g s.tr := by
-    induction h with
-    | init => exact ⟨quiet_init g, traceOk2_nil g⟩
-    | step i hprev hstep ih => exact quiet_and_ok2_step hw (inv_reachable hw hprev) ih.1 ih.2 i hstep
-  exact this.1
+theorem quiet_reachable {s : St} (hw : WF g) (h : LTS.Reachable (sys g) s) : Quiet g s :=
+  (quiet_ok2_reachable hw h).1
+
+/-- a steered run is a run of the model: its trace is accepted by the monitor -/
+theorem runS_accepted (hw : WF g) (pol : Nat → Steer) (sched : List Label) :
+    accepts g ((sysS g pol).run sched).tr = true := by
+  have hr := reachableS_reachable (LTS.run_reachable (sysS g pol) sched)
+  exact (accepts_iff g _).mpr ⟨(inv_reachable hw hr).ok, (quiet_ok2_reachable hw hr).2⟩
 
 /-- under steering, too, some continuation of every schedule lets the main thread finish -/
 theorem can_finishS (hw : WF g) : ∀ (m : Nat) (s : St), LTS.Reachable (sysS g pol) s → mu g s = m →
